@@ -293,8 +293,19 @@ func (l *lexer) updateCursor(n int) {
 	if c := strings.Count(s, "\n"); c > 0 {
 		l.line += c
 		l.col = 0
+		l.tcol = 0
 	}
-	l.col += utf8.RuneCountInString(s[strings.LastIndex(s, "\n")+1:])
+	last := s[strings.LastIndex(s, "\n")+1:]
+	l.col += utf8.RuneCountInString(last)
+	// Keep the tab-expanded column current as well: a double quoted string
+	// may start on the same line after the text skipped here.
+	for _, r := range last {
+		if r == '\t' {
+			l.tcol = (l.tcol + 8) & ^7
+		} else {
+			l.tcol++
+		}
+	}
 }
 
 // Errorf writes an error on l.errout and increments the error count.
